@@ -133,7 +133,7 @@ def run_case(case):
     dshape = case["batch"] + ([case["ci"]] if multi else []) + m
     fshape = ([case["co"], case["ci"]] if multi else []) + n
     lay = sum(case["rs"]) % 8            # 1-3: data F / T / strided; 5-7: filter likewise
-    with structured((sum(case["rs"]) // 3) % 9 if sum(case["rs"]) % 2 else 0):
+    with structured((sum(case["rs"]) // 3) % 10 if sum(case["rs"]) % 2 else 0):
         data = relayout(crandn(rng, dshape, case["dd"]), lay if lay < 4 else 0)
         filt = relayout(crandn(rng, fshape, case["df"]), lay - 4 if lay >= 4 else 0)
     md, mf = case.get("mag", [1, 1])     # magnitudes: convolution is bilinear, so homogeneous
